@@ -234,16 +234,95 @@ Qed.
 
 Section StageB.
 Variable key : id -> option str.
+Variable fold : id -> bool.
 Variable mt : str -> str -> bool.
 Variable ab : str -> bool.
 Hypothesis abs_eq : forall p v, ab p = true -> (mt p v = true <-> v = p).
 
 Notation val := (val key).
+Notation has_key := (has_key key).
 Notation em := (em key mt).
-Notation any_match := (any_match key mt).
+Notation xeq := (xeq key fold).
+Notation sm := (sm key fold mt ab).
+Notation any_match := (any_match key fold mt ab).
+Notation xkey := (xkey key fold).
+Notation nkey := (nkey key fold).
+Notation xkeyo := (xkeyo key fold).
 
 Lemma str_eqb_spec' a b : str_eqb a b = true <-> a = b.
 Proof. apply str_eqb_spec. Qed.
+
+Lemma ostr_eqb_spec a b : ostr_eqb a b = true <-> a = b.
+Proof.
+  destruct a as [x|], b as [y|]; cbn; try (split; [discriminate|congruence]); [|tauto].
+  rewrite str_eqb_spec. split; congruence.
+Qed.
+
+(* the keys of the name maps are compared exactly *)
+Lemma xk_eqb_spec a b : xk_eqb a b = true <-> a = b.
+Proof.
+  destruct a as [a1 a2], b as [b1 b2]. unfold xk_eqb. cbn [fst snd].
+  rewrite andb_true_iff, Bool.eqb_true_iff, str_eqb_spec. split.
+  - intros [-> ->]. reflexivity.
+  - intro H. inversion H. auto.
+Qed.
+
+Lemma xko_eqb_spec a b : xko_eqb a b = true <-> a = b.
+Proof.
+  destruct a as [a1 a2], b as [b1 b2]. unfold xko_eqb. cbn [fst snd].
+  rewrite andb_true_iff, Bool.eqb_true_iff, ostr_eqb_spec. split.
+  - intros [-> ->]. reflexivity.
+  - intro H. inversion H. auto.
+Qed.
+
+(* an element is filed under one of the exact keys of the pattern iff the pattern equals its value *)
+Lemma xkey_xeq p e : (xkey e = (false, p) \/ xkey e = (true, lower p)) <-> xeq p e = true.
+Proof.
+  unfold Filter.xkey, Filter.xeq. destruct (fold e); rewrite str_eqb_spec; split.
+  - intros [H|H]; [discriminate|]. injection H as H. symmetry. exact H.
+  - intro H. right. rewrite H. reflexivity.
+  - intros [H|H]; [|discriminate]. injection H as H. symmetry. exact H.
+  - intro H. left. rewrite H. reflexivity.
+Qed.
+
+Lemma xlookup_spec nm p e : WK xkey nm ->
+  (In e (xlookup p nm) <-> In e (elems nm) /\ xeq p e = true).
+Proof.
+  intro Hwk. unfold xlookup.
+  rewrite in_app_iff, !(nm_get_spec xk_eqb xk_eqb_spec xkey nm _ e Hwk), <- xkey_xeq. tauto.
+Qed.
+
+(* a name key is selected by a pattern iff the pattern selects the element *)
+Lemma xm_nkey p e : xm p (nkey e) = xeq p e.
+Proof. reflexivity. Qed.
+
+Lemma nmt_nkey p e : nmt mt ab p (nkey e) = sm p e.
+Proof. reflexivity. Qed.
+
+(* get_netlists: a netlist without the key is filed under None, and no non-empty pattern equals "" *)
+Lemma xkeyo_xeq p e : p <> [] ->
+  ((xkeyo e = (false, Some p) \/ xkeyo e = (true, Some (lower p))) <-> xeq p e = true).
+Proof.
+  intro Hp. destruct (has_key e) eqn:Hk.
+  - unfold Filter.has_key in Hk. unfold Filter.xkeyo, Filter.xeq, Filter.val.
+    destruct (key e) as [w|]; [|discriminate]. cbn [value_or_empty].
+    destruct (fold e); rewrite str_eqb_spec; split.
+    + intros [H|H]; [discriminate|]. injection H as H. symmetry. exact H.
+    + intro H. right. rewrite H. reflexivity.
+    + intros [H|H]; [|discriminate]. injection H as H. symmetry. exact H.
+    + intro H. left. rewrite H. reflexivity.
+  - rewrite (xeq_nokey key fold p e Hp Hk). unfold Filter.has_key in Hk. unfold Filter.xkeyo.
+    destruct (key e); [discriminate|]. split; [|discriminate].
+    intros [H|H]; discriminate.
+Qed.
+
+Lemma xolookup_spec nm p e : WK xkeyo nm -> p <> [] ->
+  (In e (nm_get xko_eqb (false, Some p) nm ++ nm_get xko_eqb (true, Some (lower p)) nm) <->
+   In e (elems nm) /\ xeq p e = true).
+Proof.
+  intros Hwk Hp.
+  rewrite in_app_iff, !(nm_get_spec xko_eqb xko_eqb_spec xkeyo nm _ e Hwk), <- (xkeyo_xeq p e Hp). tauto.
+Qed.
 
 (* the elements that the collection loop adds, in order *)
 Fixpoint fresh (others found : list id) : list id :=
@@ -270,8 +349,8 @@ Proof.
 Qed.
 
 Lemma collect_eq others : forall found nm,
-  collect key others found nm =
-  (rev (fresh others found) ++ found, build str_eqb val (fresh others found) nm).
+  collect key fold others found nm =
+  (rev (fresh others found) ++ found, build xk_eqb nkey (fresh others found) nm).
 Proof.
   induction others as [|x rest IH]; intros found nm; cbn [collect fresh]; [reflexivity|].
   destruct (memb x found); [apply IH|]. rewrite IH. cbn [rev build fold_left].
@@ -279,18 +358,12 @@ Proof.
 Qed.
 
 Lemma collect_netlists_eq objs : forall found nm,
-  collect_netlists key objs found nm =
-  (rev (fresh objs found) ++ found, build ostr_eqb key (fresh objs found) nm).
+  collect_netlists key fold objs found nm =
+  (rev (fresh objs found) ++ found, build xko_eqb xkeyo (fresh objs found) nm).
 Proof.
   induction objs as [|x rest IH]; intros found nm; cbn [collect_netlists fresh]; [reflexivity|].
   destruct (memb x found); [apply IH|]. rewrite IH. cbn [rev build fold_left].
   rewrite <- app_assoc. reflexivity.
-Qed.
-
-Lemma ostr_eqb_spec a b : ostr_eqb a b = true <-> a = b.
-Proof.
-  destruct a as [x|], b as [y|]; cbn; try (split; [discriminate|congruence]); [|tauto].
-  rewrite str_eqb_spec. split; congruence.
 Qed.
 
 Lemma em_abs p e : ab p = true -> (em p e = true <-> val e = p).
@@ -314,8 +387,8 @@ Proof.
 Qed.
 
 Lemma collect_fresh_eq others yielded : forall found nm,
-  collect_fresh key others yielded found nm =
-  (rev (fresh others (yielded ++ found)) ++ found, build str_eqb val (fresh others (yielded ++ found)) nm).
+  collect_fresh key fold others yielded found nm =
+  (rev (fresh others (yielded ++ found)) ++ found, build xk_eqb xkey (fresh others (yielded ++ found)) nm).
 Proof.
   induction others as [|x rest IH]; intros found nm; cbn [collect_fresh fresh]; [reflexivity|].
   rewrite memb_app. destruct (memb x yielded || memb x found); [apply IH|]. rewrite IH.
@@ -324,7 +397,7 @@ Proof.
   cbn [rev build fold_left]. rewrite <- app_assoc. reflexivity.
 Qed.
 
-Lemma stageB_found_pats_spec nm pats : WK val nm ->
+Lemma stageB_found_pats_spec nm pats : WK xkey nm ->
   forall found, NoDup found -> incl found (elems nm) ->
   NoDup (stageB_found_pats key mt ab pats found nm) /\
   forall e, In e (stageB_found_pats key mt ab pats found nm) <-> In e found /\ any_match pats e = true.
@@ -332,19 +405,18 @@ Proof.
   intros Hwk. induction pats as [|p ps IH]; intros found Hnd Hinc; cbn [stageB_found_pats].
   - split; [constructor|]. intro e. cbn. split; [intros []|]. intros [_ H]. discriminate.
   - destruct (ab p) eqn:Ea.
-    + destruct (take (nm_get str_eqb p nm) found) as [y found'] eqn:Et.
+    + destruct (take (xlookup p nm) found) as [y found'] eqn:Et.
       destruct (take_spec _ _ _ _ Et) as (T1 & T2 & T3 & T4).
-      assert (Hy : forall e, In e y <-> In e found /\ em p e = true).
-      { intro e. rewrite T1, (nm_get_spec str_eqb str_eqb_spec' val nm p e Hwk).
-        rewrite (em_abs p e Ea). split; [tauto|]. intros [H1 H2].
-        repeat split; auto. }
+      assert (Hy : forall e, In e y <-> In e found /\ sm p e = true).
+      { intro e. rewrite T1, (xlookup_spec nm p e Hwk), (sm_abs key fold mt ab p e Ea).
+        split; [tauto|]. intros [H1 H2]. repeat split; auto. }
       destruct (IH found' (T4 Hnd)) as [I1 I2].
       { intros x Hx. apply T2 in Hx as [Hx _]. apply Hinc, Hx. }
       split.
       * apply NoDup_app_iff. repeat split; auto. intros x Hx Hr. apply I2 in Hr as [Hr _].
         apply T2 in Hr as [_ Hr]. apply T1 in Hx as [Hx _]. contradiction.
       * intro e. rewrite in_app_iff, I2, Hy, T2, any_match_cons, orb_true_iff. split; [tauto|].
-        intros [Hf [Hm|Hm]]; [tauto|]. destruct (em p e) eqn:Ep; [tauto|]. right.
+        intros [Hf [Hm|Hm]]; [tauto|]. destruct (sm p e) eqn:Ep; [tauto|]. right.
         repeat split; auto. intro Hi.
         assert (In e y) as Hey by (apply T1; tauto). apply Hy in Hey as [_ Hey]. congruence.
     + destruct (IH (filter (fun e => negb (em p e)) found) (NoDup_filter _ _ Hnd)) as [I1 I2].
@@ -354,19 +426,20 @@ Proof.
         intros x Hx Hr. apply filter_In in Hx as [_ Hx]. apply I2 in Hr as [Hr _].
         apply filter_In in Hr as [_ Hr]. rewrite Hx in Hr. discriminate.
       * intro e. rewrite in_app_iff, I2, !filter_In, negb_true_iff, any_match_cons, orb_true_iff.
+        rewrite (sm_nonabs key fold mt ab p e Ea).
         split; [tauto|]. intros [Hf [Hm|Hm]]; [tauto|]. destruct (em p e) eqn:Ep; tauto.
 Qed.
 
 (* what stage B of get_instances / get_libraries yields: the collected elements that stage A has not
    yielded and that match, each once *)
 Theorem stageB_found_full others pats yielded :
-  NoDup (stageB_found key mt ab others pats yielded) /\
-  forall e, In e (stageB_found key mt ab others pats yielded) <->
+  NoDup (stageB_found key fold mt ab others pats yielded) /\
+  forall e, In e (stageB_found key fold mt ab others pats yielded) <->
             In e others /\ ~ In e yielded /\ any_match pats e = true.
 Proof.
   unfold stageB_found. destruct others as [|o others]; [split; [constructor|cbn; tauto]|].
   set (os := o :: others). rewrite collect_fresh_eq, !app_nil_r.
-  destruct (build_spec str_eqb str_eqb_spec' val (fresh os yielded) [] (WK_nil _) (fresh_NoDup _ _))
+  destruct (build_spec xk_eqb xk_eqb_spec xkey (fresh os yielded) [] (WK_nil _) (fresh_NoDup _ _))
     as [Hwk Hel]; [intros x _ []|].
   destruct (stageB_found_pats_spec _ pats Hwk (rev (fresh os yielded))) as [H1 H2].
   - apply NoDup_rev, fresh_NoDup.
@@ -375,62 +448,51 @@ Proof.
 Qed.
 
 Theorem stageB_found_spec others pats yielded e :
-  In e (stageB_found key mt ab others pats yielded) <->
+  In e (stageB_found key fold mt ab others pats yielded) <->
   In e others /\ ~ In e yielded /\ any_match pats e = true.
 Proof. apply stageB_found_full. Qed.
 
-Theorem stageB_found_NoDup others pats yielded : NoDup (stageB_found key mt ab others pats yielded).
+Theorem stageB_found_NoDup others pats yielded : NoDup (stageB_found key fold mt ab others pats yielded).
 Proof. apply stageB_found_full. Qed.
 
 (* ---- get_definitions, get_ports, get_cables ---- *)
 
-Lemma stageB_names_pats_spec pats : forall nm e, WK val nm ->
+Lemma stageB_names_pats_spec pats : forall nm e, WK nkey nm ->
   (In e (stageB_names_pats mt ab pats nm) <-> In e (elems nm) /\ any_match pats e = true).
 Proof.
   induction pats as [|p ps IH]; intros nm e Hwk; cbn [stageB_names_pats].
   - cbn. split; [intros []|]. intros [_ H]. discriminate.
-  - rewrite any_match_cons, orb_true_iff. destruct (ab p) eqn:Ea; rewrite in_app_iff.
-    + rewrite (nm_get_spec str_eqb str_eqb_spec' val nm p e Hwk), (em_abs p e Ea).
-      rewrite IH by (apply WK_filter; exact Hwk). rewrite nm_del_eq.
-      rewrite (elems_filter_spec val (fun n => negb (str_eqb p n)) nm e Hwk), negb_true_iff.
-      split; [tauto|]. intros [H [H1|H1]]; [tauto|]. destruct (str_eqb p (val e)) eqn:E.
-      * apply str_eqb_spec in E. left. auto.
-      * right. tauto.
-    + rewrite IH by (apply WK_filter; exact Hwk).
-      rewrite (elems_filter_spec val (fun n => mt p n) nm e Hwk).
-      rewrite (elems_filter_spec val (fun n => negb (mt p n)) nm e Hwk), negb_true_iff.
-      unfold Filter.em. split; [tauto|]. intros [H [H1|H1]]; [tauto|].
-      destruct (mt p (val e)) eqn:E; [left|right]; tauto.
+  - rewrite any_match_cons, orb_true_iff, in_app_iff.
+    rewrite IH by (apply WK_filter; exact Hwk).
+    rewrite (elems_filter_spec nkey (fun n => nmt mt ab p n) nm e Hwk).
+    rewrite (elems_filter_spec nkey (fun n => negb (nmt mt ab p n)) nm e Hwk), negb_true_iff, nmt_nkey.
+    split; [tauto|]. intros [H [H1|H1]]; [tauto|].
+    destruct (sm p e) eqn:E; [left|right]; tauto.
 Qed.
 
-Lemma stageB_names_pats_NoDup pats : forall nm, WK val nm ->
+Lemma stageB_names_pats_NoDup pats : forall nm, WK nkey nm ->
   NoDup (stageB_names_pats mt ab pats nm).
 Proof.
   induction pats as [|p ps IH]; intros nm Hwk; cbn [stageB_names_pats]; [constructor|].
-  destruct (ab p) eqn:Ea; apply NoDup_app_iff.
-  - split; [apply nm_get_NoDup, Hwk|]. split; [apply IH, WK_filter, Hwk|].
-    intros x Hx Hr. apply (nm_get_spec str_eqb str_eqb_spec' val nm p x Hwk) in Hx as [_ Hx].
-    apply (stageB_names_pats_spec ps _ x (WK_filter val _ _ Hwk)) in Hr as [Hr _].
-    apply (elems_filter_spec val (fun n => negb (str_eqb p n)) nm x Hwk) in Hr as [_ Hr].
-    rewrite Hx, str_eqb_refl in Hr. discriminate.
-  - split; [apply (WK_filter val (fun ne => mt p (fst ne)) nm Hwk)|]. split; [apply IH, WK_filter, Hwk|].
-    intros x Hx Hr. apply (elems_filter_spec val (fun n => mt p n) nm x Hwk) in Hx as [_ Hx].
-    apply (stageB_names_pats_spec ps _ x (WK_filter val _ _ Hwk)) in Hr as [Hr _].
-    apply (elems_filter_spec val (fun n => negb (mt p n)) nm x Hwk) in Hr as [_ Hr].
-    rewrite Hx in Hr. discriminate.
+  apply NoDup_app_iff.
+  split; [apply (WK_filter nkey (fun ne => nmt mt ab p (fst ne)) nm Hwk)|]. split; [apply IH, WK_filter, Hwk|].
+  intros x Hx Hr. apply (elems_filter_spec nkey (fun n => nmt mt ab p n) nm x Hwk) in Hx as [_ Hx].
+  apply (stageB_names_pats_spec ps _ x (WK_filter nkey _ _ Hwk)) in Hr as [Hr _].
+  apply (elems_filter_spec nkey (fun n => negb (nmt mt ab p n)) nm x Hwk) in Hr as [_ Hr].
+  rewrite Hx in Hr. discriminate.
 Qed.
 
 Lemma collected_nm others found :
-  WK val (build str_eqb val (fresh others found) []) /\
-  forall x, In x (elems (build str_eqb val (fresh others found) [])) <-> In x others /\ ~ In x found.
+  WK nkey (build xk_eqb nkey (fresh others found) []) /\
+  forall x, In x (elems (build xk_eqb nkey (fresh others found) [])) <-> In x others /\ ~ In x found.
 Proof.
-  destruct (build_spec str_eqb str_eqb_spec' val (fresh others found) [] (WK_nil _) (fresh_NoDup _ _))
+  destruct (build_spec xk_eqb xk_eqb_spec nkey (fresh others found) [] (WK_nil _) (fresh_NoDup _ _))
     as [Hwk Hel]; [intros x _ []|].
   split; [exact Hwk|]. intro x. rewrite Hel, fresh_spec. cbn. tauto.
 Qed.
 
 Theorem stageB_names_spec others pats found e :
-  In e (stageB_names key mt ab others pats found) <->
+  In e (stageB_names key fold mt ab others pats found) <->
   In e others /\ ~ In e found /\ any_match pats e = true.
 Proof.
   unfold stageB_names. destruct others as [|o others]; [cbn; tauto|].
@@ -440,7 +502,7 @@ Proof.
 Qed.
 
 Theorem stageB_names_NoDup others pats found :
-  NoDup (stageB_names key mt ab others pats found).
+  NoDup (stageB_names key fold mt ab others pats found).
 Proof.
   unfold stageB_names. destruct others as [|o others]; [constructor|].
   rewrite collect_eq. apply stageB_names_pats_NoDup. apply collected_nm.
@@ -457,7 +519,7 @@ Proof.
   - intro H. symmetry in H. contradiction.
 Qed.
 
-Lemma stageB_netlists_pats_spec nm pats : WK key nm -> good_pats ab pats ->
+Lemma stageB_netlists_pats_spec nm pats : WK xkeyo nm -> good_pats ab pats ->
   forall found, NoDup found -> incl found (elems nm) ->
   NoDup (stageB_netlists_pats key mt ab pats found nm) /\
   forall e, In e (stageB_netlists_pats key mt ab pats found nm) <-> In e found /\ any_match pats e = true.
@@ -467,19 +529,19 @@ Proof.
   - assert (Hg' : good_pats ab ps) by (intros q Hq; apply Hg; right; exact Hq).
     destruct (ab p) eqn:Ea.
     + assert (Hp : p <> []) by (apply Hg; [left; reflexivity|exact Ea]).
-      destruct (take (nm_get ostr_eqb (Some p) nm) found) as [y found'] eqn:Et.
+      destruct (take (nm_get xko_eqb (false, Some p) nm ++ nm_get xko_eqb (true, Some (lower p)) nm) found)
+        as [y found'] eqn:Et.
       destruct (take_spec _ _ _ _ Et) as (T1 & T2 & T3 & T4).
-      assert (Hy : forall e, In e y <-> In e found /\ em p e = true).
-      { intro e. rewrite T1, (nm_get_spec ostr_eqb ostr_eqb_spec key nm (Some p) e Hwk).
-        rewrite (em_abs p e Ea), (key_val_nonempty p e Hp). split; [tauto|]. intros [H1 H2].
-        repeat split; auto. }
+      assert (Hy : forall e, In e y <-> In e found /\ sm p e = true).
+      { intro e. rewrite T1, (xolookup_spec nm p e Hwk Hp), (sm_abs key fold mt ab p e Ea).
+        split; [tauto|]. intros [H1 H2]. repeat split; auto. }
       destruct (IH Hg' found' (T4 Hnd)) as [I1 I2].
       { intros x Hx. apply T2 in Hx as [Hx _]. apply Hinc, Hx. }
       split.
       * apply NoDup_app_iff. repeat split; auto. intros x Hx Hr. apply I2 in Hr as [Hr _].
         apply T2 in Hr as [_ Hr]. apply T1 in Hx as [Hx _]. contradiction.
       * intro e. rewrite in_app_iff, I2, Hy, T2, any_match_cons, orb_true_iff. split; [tauto|].
-        intros [Hf [Hm|Hm]]; [tauto|]. destruct (em p e) eqn:Ep; [tauto|]. right.
+        intros [Hf [Hm|Hm]]; [tauto|]. destruct (sm p e) eqn:Ep; [tauto|]. right.
         repeat split; auto. intro Hi.
         assert (In e y) as Hey by (apply T1; tauto). apply Hy in Hey as [_ Hey]. congruence.
     + destruct (IH Hg' (filter (fun e => negb (em p e)) found) (NoDup_filter _ _ Hnd)) as [I1 I2].
@@ -489,15 +551,16 @@ Proof.
         intros x Hx Hr. apply filter_In in Hx as [_ Hx]. apply I2 in Hr as [Hr _].
         apply filter_In in Hr as [_ Hr]. rewrite Hx in Hr. discriminate.
       * intro e. rewrite in_app_iff, I2, !filter_In, negb_true_iff, any_match_cons, orb_true_iff.
+        rewrite (sm_nonabs key fold mt ab p e Ea).
         split; [tauto|]. intros [Hf [Hm|Hm]]; [tauto|]. destruct (em p e) eqn:Ep; tauto.
 Qed.
 
 Theorem stageB_netlists_spec objs pats : good_pats ab pats ->
-  NoDup (stageB_netlists key mt ab objs pats) /\
-  forall e, In e (stageB_netlists key mt ab objs pats) <-> In e objs /\ any_match pats e = true.
+  NoDup (stageB_netlists key fold mt ab objs pats) /\
+  forall e, In e (stageB_netlists key fold mt ab objs pats) <-> In e objs /\ any_match pats e = true.
 Proof.
   intro Hg. unfold stageB_netlists. rewrite collect_netlists_eq, app_nil_r.
-  destruct (build_spec ostr_eqb ostr_eqb_spec key (fresh objs []) [] (WK_nil _) (fresh_NoDup _ _))
+  destruct (build_spec xko_eqb xko_eqb_spec xkeyo (fresh objs []) [] (WK_nil _) (fresh_NoDup _ _))
     as [Hwk Hel]; [intros x _ []|].
   destruct (stageB_netlists_pats_spec _ pats Hwk Hg (rev (fresh objs []))) as [H1 H2].
   - apply NoDup_rev, fresh_NoDup.
